@@ -16,3 +16,12 @@ assert os.path.realpath(os.path.dirname(os.path.dirname(d42.__file__))) == os.pa
     f"d42 imported from {d42.__file__}, expected under {REPO}"
 
 RANDOM_MODULE = sys.modules["d42.generation._random"]
+
+
+def safe_repr(x):
+    """repr for DESCRIBING a case in evidence / replay files: a schema whose printing raises (printing is C06's business, and
+    messages that embed it are C08 / C10 / C12's) is described by its class instead of stopping the run"""
+    try:
+        return repr(x)
+    except Exception as e:  # noqa: BLE001
+        return "<%s whose repr raises %s>" % (type(x).__name__, type(e).__name__)
